@@ -82,7 +82,10 @@ def run(ctx):
     rp = json.load(open(ctx.replay)) if ctx.replay else None
     rpo = rp["replay"] if rp else None
     extra = {}
-    pmA, pmB = ctx.pick(("partner", "none"), ("full", "partner"))
+    # multi-statement requests: "partner" = every instance before and after a harmless statement, "full" = also
+    # all pairs of requirement signatures.  quick: the model-checking run of family A has single statements only
+    # (pairs are model checked in the thorough tier); the generated matrix always has the pairs.
+    mcA, pmA, pmB = ctx.pick(("none", "partner", "none"), ("full", "full", "partner"))
     # development aid: C16_STAGES=mc,authz,http,listing,cache,raft runs a subset (default: everything)
     stages = set((os.environ.get("C16_STAGES") or "mc,authz,http,listing,cache,raft").split(","))
 
@@ -90,13 +93,14 @@ def run(ctx):
     if not ctx.replay and "mc" in stages:
         inv = ["TypeOK", "C16_ExecutedOnlyIfAllowed", "C16_FirstAdminOnly", "C16_RejectedNeverRuns",
                "C16_ListingOnlyGranted", "OutcomeAgrees"]
-        ctx.write_cfg(sd, "MCA.cfg", "Spec", auth_consts("A", pmA), inv)
+        ctx.write_cfg(sd, "MCA.cfg", "Spec", auth_consts("A", mcA), inv)
         ctx.tlc_check(sd, "Auth", "MCA.cfg", workers=8, timeout=1500)
-        ctx.write_cfg(sd, "MCB.cfg", "Spec", auth_consts("B", pmB), inv)
-        ctx.tlc_check(sd, "Auth", "MCB.cfg", workers=8, timeout=1500)
-        # the repaired implementation (no deviation) satisfies the property without exception; with a single
-        # recorded deviation left this run nearly repeats MCB, so it and the witness runs are thorough-tier only
         if not ctx.quick():
+            # family B (every credential case) is model checked in the thorough tier only; the quick tier still
+            # replays all of it on the real code
+            ctx.write_cfg(sd, "MCB.cfg", "Spec", auth_consts("B", pmB), inv)
+            ctx.tlc_check(sd, "Auth", "MCB.cfg", workers=8, timeout=1500)
+            # the repaired implementation (no deviation) satisfies the property without exception
             ctx.write_cfg(sd, "MCS.cfg", "Spec", auth_consts("B", "none", devs=[]), inv + ["C16_ExecutedOnlyIfAllowedStrict"])
             ctx.tlc_check(sd, "Auth", "MCS.cfg", workers=8, timeout=900)
         for w in ctx.pick([], ["NeverRuns", "NeverTainted"]):
@@ -117,7 +121,7 @@ def run(ctx):
         ctx.cov["exhaustive"] = True
         phase("model checking done: %d states" % ctx.cov["states"])
 
-    # ------------------------------------------------------------------ 2. the matrix on the real authorizers / handler
+    # ------------------------------------------------------------------ helpers
     def gen_groups():
         fam = {}
         classes = listing = None
@@ -136,101 +140,144 @@ def run(ctx):
             raise Infra("AuthGen did not print the class list / the listing table")
         return fam, classes, listing
 
-    def run_go(pkg, files, test, inp, label):
-        p = ctx.write_json("in-%s-%s.json" % (test, label), inp)
-        recs, out, rc = ctx.go_test(pkg, files, "^%s$" % test, env={"VERIF_IN": p}, timeout=1800, label=label,
+    def run_go(pkg, files, tests, inp, label):
+        """One `go test` invocation running the given drivers of one package on one input file."""
+        p = ctx.write_json("in-%s-%s.json" % (pkg.split("/")[-1], label), inp)
+        recs, out, rc = ctx.go_test(pkg, files, "^(%s)$" % "|".join(tests), env={"VERIF_IN": p}, timeout=2400, label=label,
                                     extra_pkgs=AUTHX)
-        infra_records(recs, out, test, replay=bool(ctx.replay))
+        infra_records(recs, out, "+".join(tests), replay=bool(ctx.replay))
         return recs, out, rc
 
-    def matrix(pkg, files, test, inp):
+    def owner(r, tests):
+        """Which driver of a merged run a record belongs to."""
+        if r.get("k") == "done":
+            return r.get("test")
+        sig = r.get("sig", "")
+        if sig.startswith("cache:"):
+            return (r.get("replay") or {}).get("test", "TestVerifAuthCache")
+        if sig.startswith("listing:"):
+            return "TestVerifAuthListing"
+        for t in ("TestVerifAuthMatrix", "TestVerifAuthHTTP"):
+            if t in tests:
+                return t
+        return tests[0]
+
+    def confirm_for(pkg, files, test):
         def confirm(r):
-            recs, out, rc = run_go(pkg, files, test, {"only": r}, "confirm")
+            if test in ("TestVerifAuthMatrix", "TestVerifAuthHTTP"):
+                inp = {"only": r}
+            elif test == "TestVerifAuthListing":
+                inp = r
+            else:
+                inp = {"behaviours": [r["behaviour"]], "init_pw": "p1"}
+            recs, out, rc = run_go(pkg, files, [test], inp, "confirm")
             return any(x.get("k") == "mismatch" for x in recs)
-        recs, out, rc = run_go(pkg, files, test, inp, "matrix")
-        return ctx.process(recs, out, rc, test, confirm)
+        return confirm
+
+    def drive(pkg, files, tests, inp, label):
+        """Run the drivers in one invocation, digest each driver's records on its own."""
+        recs, out, rc = run_go(pkg, files, tests, inp, label)
+        res = {}
+        for t in tests:
+            sub = [r for r in recs if r.get("k") in ("done", "mismatch") and owner(r, tests) == t]
+            if t == tests[0]:
+                sub += [r for r in recs if r.get("k") not in ("done", "mismatch")]
+            res[t] = ctx.process(sub, out, rc, t, confirm_for(pkg, files, t))
+        return res
 
     kind = None
     if rpo is not None:
         kind = "cache" if "behaviour" in rpo else "listing" if "listing" in rpo else "matrix"
-    if kind in (None, "matrix", "listing") and (ctx.replay or stages & {"authz", "http", "listing"}):
-        level = rp["signature"].split(":")[0] if rp else None
-        if kind == "matrix":
-            inp_meta = inp_http = {"only": rpo}
-        elif kind == "listing":
-            inp_meta = inp_http = None
-        else:
+
+    # ------------------------------------------------------------------ replay of one recorded case
+    if kind == "matrix":
+        level = rp["signature"].split(":")[0]
+        if level in ("authz", "dev"):
+            drive(META, META_FILES, ["TestVerifAuthMatrix"], {"only": rpo}, "replay")
+        if level in ("http", "dev"):
+            drive(HTTPD, HTTPD_FILES, ["TestVerifAuthHTTP"], {"only": rpo}, "replay")
+    elif kind == "listing":
+        drive(HTTPD, HTTPD_FILES, ["TestVerifAuthListing"], rpo, "replay")
+    elif kind == "cache":
+        drive(META, META_FILES, [rpo.get("test", "TestVerifAuthCache")], {"behaviours": [rpo["behaviour"]], "init_pw": "p1"}, "replay")
+
+    # ------------------------------------------------------------------ 2./3. matrix and cache interleavings on the real code
+    if kind is None:
+        meta_tests, meta_in = [], {"init_pw": "p1"}
+        http_tests, http_in = [], {}
+        if stages & {"authz", "http", "listing"}:
             fam, classes, listing = gen_groups()
             groups = fam["A"] + fam["B"]
             types = stmt_types(ctx)
-            inp_meta = {"groups": groups, "classes": classes, "stmt_types": types}
             # HTTP level: everything (thorough) / all of family B (every credential case) and a seeded part of A (quick)
             hg = groups if not ctx.quick() else fam["B"] + [g for g in fam["A"] if rnd.random() < 0.4]
-            inp_http = {"groups": hg, "classes": classes, "stmt_types": types}
             extra.update(matrix_groups=len(groups), matrix_groups_http=len(hg), statement_types=len(types))
             phase("matrix generated: %d groups (A %d, B %d), %d statement types" % (len(groups), len(fam["A"]), len(fam["B"]), len(types)))
-        if inp_meta is not None and level in (None, "authz", "dev") and (ctx.replay or "authz" in stages):
-            d = matrix(META, META_FILES, "TestVerifAuthMatrix", inp_meta)
-            extra["authorizer_cases"] = d.get("cases", 0)
-            extra["statement_instances"] = d.get("instances", 0)
-            ctx.cov["traces_validated_against_impl"] += d.get("cases", 0)
-            phase("authorizer matrix: %s" % {k: d.get(k) for k in ("cases", "granted", "denied", "instances")})
-        if inp_http is not None and level in (None, "http", "dev") and (ctx.replay or "http" in stages):
-            d = matrix(HTTPD, HTTPD_FILES, "TestVerifAuthHTTP", inp_http)
-            extra["http_requests"] = d.get("requests", 0)
-            extra["http_executed"] = d.get("executed", 0)
-            ctx.cov["traces_validated_against_impl"] += d.get("requests", 0)
-            phase("http matrix: %s" % {k: d.get(k) for k in ("requests", "executed", "status401", "status403")})
-        # statements that list across databases, through the real coordinator.StatementExecutor
-        if kind == "listing" or (kind is None and "listing" in stages):
-            linp = {"listing": listing} if kind is None else rpo
-            def lconfirm(r):
-                recs, out, rc = run_go(HTTPD, HTTPD_FILES, "TestVerifAuthListing", r, "confirm")
-                return any(x.get("k") == "mismatch" for x in recs)
-            recs, out, rc = run_go(HTTPD, HTTPD_FILES, "TestVerifAuthListing", linp, "listing")
-            d = ctx.process(recs, out, rc, "TestVerifAuthListing", lconfirm)
-            extra["listing_requests"] = d.get("requests", 0)
-            ctx.cov["traces_validated_against_impl"] += d.get("requests", 0)
-            phase("listing: %s" % {k: d.get(k) for k in ("requests", "listed")})
-
-    # ------------------------------------------------------------------ 3. cache interleavings on the real client
-    def cache(test, behs):
-        def confirm(r):
-            recs, out, rc = run_go(META, META_FILES, r.get("test", test), {"behaviours": [r["behaviour"]], "init_pw": "p1"}, "confirm")
-            return any(x.get("k") == "mismatch" for x in recs)
-        recs, out, rc = run_go(META, META_FILES, test, {"behaviours": behs, "init_pw": "p1"}, "replay")
-        return ctx.process(recs, out, rc, test, confirm)
-
-    if kind == "cache":
-        cache(rpo.get("test", "TestVerifAuthCache"), [rpo["behaviour"]])
-    elif kind is None and "cache" in stages:
-        # every interleaving of two calls with one change
-        ctx.write_cfg(sd, "GC1.cfg", "GSpec", cache_consts(2, 1, True), extra="INVARIANT Emit")
-        b1 = ctx.tlc_generate(sd, "AuthCacheGen", "GC1.cfg", exhaustive=True, timeout=600)
-        # two changes: every interleaving (thorough) / a seeded sample of them (quick)
-        ctx.write_cfg(sd, "GC2.cfg", "GSpec", cache_consts(2, 2, True), extra="INVARIANT Emit")
-        b2 = ctx.tlc_generate(sd, "AuthCacheGen", "GC2.cfg", exhaustive=True, timeout=1800)
-        n2 = len(b2)
-        if ctx.quick():
-            b2 = rnd.sample(b2, min(n2, 2500))
-        # changes that are committed but delivered later (batched installs), three calls: simulation
-        ctx.write_cfg(sd, "GC3.cfg", "GSpec", cache_consts(3, 3, False), extra="INVARIANT Emit")
-        b3 = ctx.tlc_generate(sd, "AuthCacheGen", "GC3.cfg", num=ctx.pick(500, 6000), depth=40, timeout=900)[:ctx.pick(1000, 12000)]
-        phase("cache behaviours generated: %d + %d + %d" % (len(b1), len(b2), len(b3)))
-        d = cache("TestVerifAuthCache", b1 + b2 + b3)
-        phase("cache replay: %s" % {k: d.get(k) for k in ("behaviours", "steps", "accepting_calls")})
-        extra.update(cache_behaviours_exhaustive_1change=len(b1), cache_behaviours_2changes=len(b2),
-                     cache_behaviours_2changes_total=n2, cache_behaviours_deferred_install=len(b3),
-                     cache_steps=d.get("steps", 0), cache_accepting_calls=d.get("accepting_calls", 0))
-        ctx.cov["traces_validated_against_impl"] += d.get("behaviours", 0)
-        # a sample through a real single-node meta service (raft, the client's own command path)
-        pool = [b for b in b1 + b2 if any(s["a"] == "change" for s in b)]
-        rb = rnd.sample(pool, min(len(pool), ctx.pick(60, 400)))
-        if "raft" in stages:
-            d = cache("TestVerifAuthCacheRaft", rb)
-            extra["cache_behaviours_raft"] = d.get("behaviours", 0)
-            ctx.cov["traces_validated_against_impl"] += d.get("behaviours", 0)
-            phase("raft replay: %s" % d.get("behaviours"))
+            if "authz" in stages:
+                meta_tests.append("TestVerifAuthMatrix")
+                meta_in.update(groups=groups, classes=classes, stmt_types=types)
+            if "http" in stages:
+                http_tests.append("TestVerifAuthHTTP")
+                http_in.update(groups=hg, classes=classes, stmt_types=types)
+            if "listing" in stages:
+                # statements that list across databases, through the real coordinator.StatementExecutor
+                http_tests.append("TestVerifAuthListing")
+                http_in.update(listing=listing)
+        if stages & {"cache", "raft"}:
+            # every interleaving of two calls with one change
+            ctx.write_cfg(sd, "GC1.cfg", "GSpec", cache_consts(2, 1, True), extra="INVARIANT Emit")
+            b1 = ctx.tlc_generate(sd, "AuthCacheGen", "GC1.cfg", exhaustive=True, timeout=600)
+            # two changes: every interleaving (thorough, 18 829) / seeded simulation (quick)
+            ctx.write_cfg(sd, "GC2.cfg", "GSpec", cache_consts(2, 2, True), extra="INVARIANT Emit")
+            if ctx.quick():
+                b2 = ctx.tlc_generate(sd, "AuthCacheGen", "GC2.cfg", num=2000, depth=30, timeout=900)[:2500]
+                n2 = 18829
+            else:
+                b2 = ctx.tlc_generate(sd, "AuthCacheGen", "GC2.cfg", exhaustive=True, timeout=1800)
+                n2 = len(b2)
+            # changes that are committed but delivered later (batched installs), three calls: simulation
+            ctx.write_cfg(sd, "GC3.cfg", "GSpec", cache_consts(3, 3, False), extra="INVARIANT Emit")
+            b3 = ctx.tlc_generate(sd, "AuthCacheGen", "GC3.cfg", num=ctx.pick(500, 6000), depth=40, timeout=900)[:ctx.pick(1000, 12000)]
+            phase("cache behaviours generated: %d + %d + %d" % (len(b1), len(b2), len(b3)))
+            extra.update(cache_behaviours_exhaustive_1change=len(b1), cache_behaviours_2changes=len(b2),
+                         cache_behaviours_2changes_total=n2, cache_behaviours_deferred_install=len(b3))
+            if "cache" in stages:
+                meta_tests.append("TestVerifAuthCache")
+                meta_in.update(behaviours=b1 + b2 + b3)
+            if "raft" in stages:
+                # a sample through a real single-node meta service (raft, the client's own command path)
+                pool = [b for b in b1 + b2 if any(s["a"] == "change" for s in b)]
+                meta_tests.append("TestVerifAuthCacheRaft")
+                meta_in.update(raft_behaviours=rnd.sample(pool, min(len(pool), ctx.pick(60, 400))))
+        if meta_tests:
+            res = drive(META, META_FILES, meta_tests, meta_in, "meta")
+            d = res.get("TestVerifAuthMatrix")
+            if d is not None:
+                extra.update(authorizer_cases=d.get("cases", 0), statement_instances=d.get("instances", 0))
+                ctx.cov["traces_validated_against_impl"] += d.get("cases", 0)
+                phase("authorizer matrix: %s" % {k: d.get(k) for k in ("cases", "granted", "denied", "instances")})
+            d = res.get("TestVerifAuthCache")
+            if d is not None:
+                extra.update(cache_steps=d.get("steps", 0), cache_accepting_calls=d.get("accepting_calls", 0))
+                ctx.cov["traces_validated_against_impl"] += d.get("behaviours", 0)
+                phase("cache replay: %s" % {k: d.get(k) for k in ("behaviours", "steps", "accepting_calls")})
+            d = res.get("TestVerifAuthCacheRaft")
+            if d is not None:
+                extra["cache_behaviours_raft"] = d.get("behaviours", 0)
+                ctx.cov["traces_validated_against_impl"] += d.get("behaviours", 0)
+                phase("raft replay: %s" % d.get("behaviours"))
+        if http_tests:
+            res = drive(HTTPD, HTTPD_FILES, http_tests, http_in, "httpd")
+            d = res.get("TestVerifAuthHTTP")
+            if d is not None:
+                extra.update(http_requests=d.get("requests", 0), http_executed=d.get("executed", 0))
+                ctx.cov["traces_validated_against_impl"] += d.get("requests", 0)
+                phase("http matrix: %s" % {k: d.get(k) for k in ("requests", "executed", "status401", "status403")})
+            d = res.get("TestVerifAuthListing")
+            if d is not None:
+                extra["listing_requests"] = d.get("requests", 0)
+                ctx.cov["traces_validated_against_impl"] += d.get("requests", 0)
+                phase("listing: %s" % {k: d.get(k) for k in ("requests", "listed")})
     if stages != {"mc", "authz", "http", "listing", "cache", "raft"}:
         extra["stages_run"] = sorted(stages)
 
